@@ -472,19 +472,28 @@ def gen_ds(ctx, n_pair, n_base_trees):
       out.append((why, row, tr))
   # (2) pairwise covering over the full option list, random trees
   rows = pairwise_rows(DS_OPTIONS, rng)
+  n_cover = len(rows)
   rng2 = ctx.rng.fork()
-  rows = rng2.shuffle(rows)
-  k = 0
   while len(rows) < n_pair:       # thorough: more random rows on top of the covering array
     rows.append({n: rng2.choice(v) for n, v in DS_OPTIONS})
-  for row in rows[:max(n_pair, 0)] if n_pair < len(rows) else rows:
+  final_rows = []
+  for row in rows:
     raw = rng2.below(4) == 0
     r2 = row if raw else make_acceptable(row, rng2)
     sharded = r2["mode"].startswith("sharded")
     tr = rand_tree(rng2, sharded=sharded, big=(r2["lobpcg_topk_precondition"] > 0 or r2["compression_rank"] != 0))
     out.append(("pairwise-raw" if raw else "pairwise", r2, tr))
-    k += 1
-  return out, len(pairwise_rows.__defaults__ or ())
+    final_rows.append(r2)
+  # measured pair coverage of the rows actually run (after the FD repair)
+  names = [n for n, _ in DS_OPTIONS]
+  allpairs = sum(len(va) * len(vb) for (a, va), (b, vb) in itertools.combinations(DS_OPTIONS, 2))
+  seen = set()
+  for r in final_rows + [row for _, row in cases]:
+    for a, b in itertools.combinations(names, 2):
+      seen.add((a, repr(r[a]), b, repr(r[b])))
+  stats = dict(covering_rows=n_cover, rows_run=len(final_rows), value_pairs=allpairs,
+               value_pairs_covered=len(seen))
+  return out, stats
 
 
 def gen_sm3(ctx, n):
@@ -593,7 +602,8 @@ def gen_tf(ctx, n):
 def gen_cases(ctx):
   quick = ctx.tier == "quick"
   cases = []
-  ds_rows, _ = gen_ds(ctx, 55 if quick else 2200, 1 if quick else 4)
+  ds_rows, stats = gen_ds(ctx, 0 if quick else 2200, 1 if quick else 4)
+  ctx.cov["pairwise"] = stats
   for why, row, tr in ds_rows:
     cfg, x64 = row_to_case(row)
     cases.append(dict(opt="ds", cfg=cfg, x64=x64, tree=tr, why=why, row=row))
@@ -623,12 +633,14 @@ def _run_chunk(chunk, x64):
     return _run_chunk(chunk[:h], x64) + _run_chunk(chunk[h:], x64)
 
 
-def run_impl(cases):
+def run_impl(cases, chunk=40):
+  """chunks of <= `chunk` cases per worker process (bounds the memory of the jit caches), NPROC
+  processes at a time; a crashing process is bisected down to the crashing case."""
   import concurrent.futures as cf
   groups = []
   for x64 in (False, True):
     sel = [c for c in cases if bool(c.get("x64")) == x64]
-    n = max(1, min(common.NPROC, len(sel) // 2 or 1)) if x64 else common.NPROC
+    n = max(1, -(-len(sel) // chunk), min(common.NPROC, len(sel)))
     for i in range(n):
       ch = sel[i::n]
       if ch:
@@ -710,6 +722,16 @@ def classify(ctx, cases, res, findings):
           ok, _, _ = consistent(c, res[c["id"]], vs[c["id"]], findings)
           if ok:
             singles.setdefault(c["id"], []).append(flag)
+      # several defects at once: the flags whose removal from as_is breaks the agreement
+      multi = [c for c in need_single if not singles.get(c["id"])]
+      necessary = {}
+      if multi:
+        for flag in BUG_FLAGS:
+          vs = evaluate(ctx, multi, res, lambda c, flag=flag: set(BUG_FLAGS) - {flag}, "without_" + flag)
+          for c in multi:
+            ok, _, _ = consistent(c, res[c["id"]], vs[c["id"]], findings)
+            if not ok:
+              necessary.setdefault(c["id"], []).append(flag)
       for c in need_single:
         r = res[c["id"]]
         why = verdicts[c["id"]][1]
@@ -719,9 +741,12 @@ def classify(ctx, cases, res, findings):
           f = finding_for_flag(findings, fl)
           if f:
             break
-        if f is None and not flags:
-          # several defects at once: every flag whose removal from as_is breaks consistency
-          f = None
+        if f is None and not flags and necessary.get(c["id"]):
+          fs = [finding_for_flag(findings, fl) for fl in necessary[c["id"]]]
+          if all(fs):
+            verdicts[c["id"]] = ("known:" + "+".join(x["id"] for x in fs), why)
+            continue
+          flags = necessary[c["id"]]
         if f is not None:
           verdicts[c["id"]] = ("known:" + f["id"], why)
         else:
@@ -816,13 +841,13 @@ def run(ctx):
     if kind == "ok":
       continue
     if kind.startswith("known:"):
-      fid = kind[6:]
-      if fid not in reported:
-        reported.add(fid)
-        f = [x for x in findings if x["id"] == fid][0]
-        ctx.known("%s %s [witness: %s]" % (fid, f["title"], json.dumps(
-            dict(opt=c["opt"], cfg=c["cfg"], x64=c.get("x64"), tree=c["tree"]))[:400]))
-      ctx.count("known=" + fid)
+      for fid in kind[6:].split("+"):
+        if fid not in reported:
+          reported.add(fid)
+          f = [x for x in findings if x["id"] == fid][0]
+          ctx.known("%s %s [witness: %s]" % (fid, f["title"], json.dumps(
+              dict(opt=c["opt"], cfg=c["cfg"], x64=c.get("x64"), tree=c["tree"]))[:400]))
+        ctx.count("known=" + fid)
       continue
     sigk = (kind, r.get("type"), (r.get("inner") or "")[:60], why[:60])
     if sigk in reported:
